@@ -50,12 +50,28 @@ struct SinkState {
 #[derive(Clone)]
 pub struct ScriptedSink {
     st: Arc<Mutex<SinkState>>,
+    /// auxiliary client used by the sink itself (a sink that keeps its own statistics)
+    aux: Option<Arc<StatsdClient>>,
+}
+
+fn aux_client() -> Arc<StatsdClient> {
+    Arc::new(StatsdClient::from_sink("aux", cadence::NopMetricSink))
+}
+
+/// what a user callback that records its own metrics does
+fn reenter(aux: &StatsdClient) {
+    aux.count_with_tags("callback.calls", 1i64).with_tag("from", "callback").send();
+    let _ = aux.time("callback.time", Duration::from_millis(3));
+    aux.gauge_with_tags("callback.level", 0.5f64).send();
 }
 
 impl RefUnwindSafe for ScriptedSink {}
 
 impl MetricSink for ScriptedSink {
     fn emit(&self, metric: &str) -> io::Result<usize> {
+        if let Some(aux) = &self.aux {
+            reenter(aux);
+        }
         let mut g = self.st.lock().unwrap();
         g.emitted.push(metric.to_string());
         // the outcome scripted for the current call stays in force for every
@@ -177,7 +193,11 @@ pub fn build_client(cfg: &ClientCfg, sink: ScriptedSink, handler_log: Arc<Mutex<
         let hl = HandlerLog(handler_log);
         let panic_at = cfg.handler_panic_at;
         let calls = std::sync::atomic::AtomicU32::new(0);
+        let aux = if cfg.reenter & 2 != 0 { Some(HandlerAux(aux_client())) } else { None };
         b = b.with_error_handler(move |e: MetricError| {
+            if let Some(a) = &aux {
+                reenter(&a.0);
+            }
             hl.0.lock().unwrap().push(ErrInfo::from_metric_error(&e));
             let n = calls.fetch_add(1, std::sync::atomic::Ordering::SeqCst) + 1;
             if panic_at.map_or(false, |k| n == k as u32) {
@@ -190,11 +210,16 @@ pub fn build_client(cfg: &ClientCfg, sink: ScriptedSink, handler_log: Arc<Mutex<
 
 struct HandlerLog(Arc<Mutex<Vec<ErrInfo>>>);
 impl RefUnwindSafe for HandlerLog {}
+struct HandlerAux(Arc<StatsdClient>);
+impl RefUnwindSafe for HandlerAux {}
 
 /// Run the whole case. `Err` = malformed case (not a verdict).
 pub fn run_case(case: &FmtCase) -> Result<Vec<CallObs>, String> {
     let st = Arc::new(Mutex::new(SinkState::default()));
-    let sink = ScriptedSink { st: st.clone() };
+    let sink = ScriptedSink {
+        st: st.clone(),
+        aux: if case.cfg.reenter & 1 != 0 { Some(aux_client()) } else { None },
+    };
     let hlog: Arc<Mutex<Vec<ErrInfo>>> = Arc::new(Mutex::new(Vec::new()));
     let client = match catch(|| build_client(&case.cfg, sink, hlog.clone())) {
         Ok(c) => c,
@@ -253,7 +278,11 @@ impl ScriptedSinkHandle {
         }
     }
     pub fn build_client(&self, cfg: &ClientCfg) -> StatsdClient {
-        build_client(cfg, ScriptedSink { st: self.st.clone() }, self.hlog.clone())
+        let sink = ScriptedSink {
+            st: self.st.clone(),
+            aux: if cfg.reenter & 1 != 0 { Some(aux_client()) } else { None },
+        };
+        build_client(cfg, sink, self.hlog.clone())
     }
     /// outcome (and error token) for the emits of the next call
     pub fn arm(&self, out: SinkOut, token: u64) {
